@@ -492,7 +492,15 @@ class Normalizer:
         if falls_through(body):
             body = body + [ast.Return(value=ast.Constant(value=None))]
         if mode != 'return':
-            body = self._conv(body, mk)
+            try:
+                body = self._conv(body, mk)
+            except NotInlinable:
+                # a `return` inside a loop over a literal table: unroll the helper's own literal loops first, then try again
+                tmp = ast.FunctionDef(name='_tmp', args=ast.arguments(posonlyargs=[], args=[], kwonlyargs=[], kw_defaults=[], defaults=[]),
+                                      body=body, decorator_list=[], lineno=1, col_offset=0)
+                if not self._unroll_with_returns(tmp):
+                    raise
+                body = self._conv(tmp.body, mk)
         self._note(ctx, callee, call)
         return prelude + body
 
@@ -673,12 +681,14 @@ class Normalizer:
         return pre + [st]
 
     # ------------------------------------------------------------------ N2 literal loops
-    def _literal_of(self, e, fn):
+    def _literal_of(self, e, fn, module_ok=False):
         if isinstance(e, (ast.Tuple, ast.List)):
             return e
         if isinstance(e, ast.Name):
             stores = [n for n in ast.walk(fn) if isinstance(n, ast.Name) and n.id == e.id
                       and isinstance(n.ctx, (ast.Store, ast.Del))]
+            if not stores and module_ok and e.id not in {a.arg for a in ast.walk(fn) if isinstance(a, ast.arg)}:
+                return self._module_literal(e.id)       # a module-level constant tuple that nothing re-binds (only used to make a helper inlinable)
             if len(stores) != 1:
                 return None
             p = getattr(stores[0], '_p', None)
@@ -705,6 +715,43 @@ class Normalizer:
                 out.update(b)
             return out
         return None
+
+    def _unroll_with_returns(self, fn):
+        """for t in <literal>: if c: return e   (a search that returns from inside the loop)  ->  if c1: return e1  elif c2: ..."""
+        for n in ast.walk(fn):
+            for c in ast.iter_child_nodes(n):
+                c._p = n
+        changed = [False]
+
+        def do_block(stmts):
+            out = []
+            for st in stmts:
+                for f in ('body', 'orelse', 'finalbody'):
+                    if isinstance(getattr(st, f, None), list) and not isinstance(st, ast.ClassDef):
+                        setattr(st, f, do_block(getattr(st, f)))
+                if isinstance(st, ast.For) and not st.orelse:
+                    lit = self._literal_of(st.iter, fn, module_ok=True)
+                    jumps = [n for n in walk_no_nested(st.body) if isinstance(n, (ast.Break, ast.Continue)) and not _in_inner_loop(n, st)]
+                    if lit is not None and lit.elts and len(lit.elts) <= MAX_UNROLL and not jumps \
+                            and not any(isinstance(x, ast.Starred) for x in lit.elts):
+                        binds = [self._bind_target(st.target, e) for e in lit.elts]
+                        stored = {n.id for s_ in st.body for n in ast.walk(s_) if isinstance(n, ast.Name) and isinstance(n.ctx, ast.Store)}
+                        if all(b is not None for b in binds) and not (set(binds[0]) & stored) and all(is_stable(v) for b in binds for v in b.values()):
+                            for b in binds:
+                                tr = _Subst(b, {})
+                                out.extend(tr.visit(x) for x in clone(st.body))
+                            # after the loop the targets keep the last element (only matters if the loop ran to completion)
+                            out.append(ast.Assign(targets=[clone(st.target)], value=clone(lit.elts[-1])))
+                            changed[0] = True
+                            continue
+                out.append(st)
+            return out
+        fn.body = do_block(fn.body)
+        for n in ast.walk(fn):
+            if not hasattr(n, 'lineno') and 'lineno' in n._attributes:
+                n.lineno = n.end_lineno = 1
+                n.col_offset = n.end_col_offset = 0
+        return changed[0]
 
     def unroll(self, fn):
         for n in ast.walk(fn):
@@ -923,6 +970,22 @@ class Normalizer:
         return changed[0]
 
     # ------------------------------------------------------------------ N8
+    def _module_literal(self, name):
+        m = self._cur_module
+        if m is None:
+            return None
+        key = (m.rel, '#lit', name)
+        if key not in self._tables:
+            d = None
+            defs = [st for st in m.tree.body if isinstance(st, ast.Assign) and any(isinstance(t, ast.Name) and t.id == name for t in st.targets)]
+            if len(defs) == 1 and len(defs[0].targets) == 1 and isinstance(defs[0].value, ast.Tuple):
+                rebound = any((isinstance(n, ast.Name) and n.id == name and isinstance(n.ctx, (ast.Store, ast.Del)) and n is not defs[0].targets[0])
+                              or (isinstance(n, ast.Global) and name in n.names) for n in ast.walk(m.tree))
+                if not rebound:
+                    d = defs[0].value
+            self._tables[key] = d
+        return self._tables[key]
+
     def _module_table(self, name):
         m = self._cur_module
         if m is None:
